@@ -11,7 +11,7 @@ from seismic_zfp.read import SgzReader  # noqa: E402
 GEOMETRIES = [
     ((1_100_000, 8, 64), (4, 4, 64), 128, 'default layout, 1.1e6 inlines: 4.2 GiB of data, inline sets beyond 2^32 bytes'),
     ((8, 70_000, 2048), (4, 4, 64), 128, 'default layout, 70000 crosslines x 2048 samples: 4.3 GiB, long traces (32 blocks)'),
-    ((300_000, 40, 40), (8, 8, 16), 128, 'general layout (8,8,16): 1.9 GiB data, block ids beyond 2^16, offsets beyond 2^31'),
+    ((340_000, 40, 40), (8, 8, 16), 128, 'general layout (8,8,16): 2.2 GB of data, block ids beyond 2^16, offsets beyond 2^31'),
     ((40_000, 26_000, 20), (64, 64, 4), 8, 'z-slice layout at 2 bit: 5.2 GiB of data, 2.5e5 tiles'),
     ((1, 9_000_000, 128), (1, 16, 64), 128, '2D line of 9e6 traces: 4.3 GiB, trace groups beyond 2^32 bytes'),
 ]
